@@ -504,12 +504,12 @@ func genDryWiring() {
 	// (`(fingerprint.NewSourcesChecker).OnError`: method OnError called on the value returned by
 	// fingerprint.NewSourcesChecker — whatever the local that holds it is called)
 	interesting := setOf("e.Logger.Prompt", "e.mkdir", "os.MkdirAll", "e.runCommand", "e.runDeferred",
-		"e.statusOnError", "(fingerprint.NewSourcesChecker).OnError", "execext.RunCommand", "fingerprint.IsTaskUpToDate",
+		"e.statusOnError", "(fingerprint.NewSourcesChecker).OnError", "e.recordFingerprint", "(fingerprint.NewSourcesChecker).IsUpToDate", "execext.RunCommand", "fingerprint.IsTaskUpToDate",
 		"e.areTaskPreconditionsMet", "e.runDeps", "e.RunTask", "e.ToEditorOutput", "e.Status",
 		"summary.PrintTask", "e.splitRegularAndWatchCalls")
 	var guards [][2]string
 	for _, fn := range []string{"Executor.RunTask", "Executor.runCommand", "Executor.mkdir", "Executor.Status",
-		"Executor.statusOnError", "Executor.ToEditorOutput", "Executor.ListTasks", "Executor.Run"} {
+		"Executor.statusOnError", "Executor.recordFingerprint", "Executor.ToEditorOutput", "Executor.ListTasks", "Executor.Run"} {
 		var kept []skEntry
 		for _, e := range walkSkeleton(root.funcDecl(fn), interesting) {
 			if e.kind == skCall || e.kind == skFunc {
